@@ -47,6 +47,23 @@ def mentions(t, name):
     return False
 
 
+def mentions_usable(t, name):
+    """like `mentions`, but a plain shared reference `&Name` does not count: `&ThreadKey` is not Keyable and gives nothing"""
+    if t is None:
+        return False
+    if isinstance(t, dict):
+        br = t.get("borrowed_ref")
+        if isinstance(br, dict) and not br.get("is_mutable") and isinstance(br.get("type"), dict) \
+                and "resolved_path" in br["type"] and br["type"]["resolved_path"]["path"].split("::")[-1] == name:
+            return False
+        if "resolved_path" in t and t["resolved_path"]["path"].split("::")[-1] == name:
+            return True
+        return any(mentions_usable(v, name) for v in t.values())
+    if isinstance(t, list):
+        return any(mentions_usable(v, name) for v in t)
+    return False
+
+
 def mentions_lifetime(t, lt):
     if isinstance(t, dict):
         if t.get("lifetime") == lt:
@@ -384,7 +401,7 @@ def fn_row(owner, fitem, im, trait=None, trait_public=True):
     returns_shared_child = isinstance(out, dict) and "borrowed_ref" in out and not out["borrowed_ref"]["is_mutable"] \
         and "generic" in out["borrowed_ref"]["type"]
     return dict(owner=owner, name=fitem["name"], public=public, unsafe=f["header"]["is_unsafe"], key_val=key_val,
-                keyable_val=keyable_val, guard_val=guard_val, returns_key=mentions(out, "ThreadKey") or
+                keyable_val=keyable_val, guard_val=guard_val, returns_key=mentions_usable(out, "ThreadKey") or
                 (isinstance(out, dict) and any(mentions_generic(out, g) for g in generic_keyable)),
                 returns_guard=any(mentions(out, g) for g in GUARDS), closure_escapes=closure_escapes,
                 returns_shared_child=returns_shared_child, mut_self=mut_self,
